@@ -2,7 +2,7 @@
 
 Mode P: every straight-line program with <= L terms over {+, * (point-wise), linear@} and a leaf alphabet
 (FieldAdapter, ducktaped linear operator, exp / Diagonal@exp of a FieldAdapter sharing a prefix, sigmoid of a
-linear chain on a second key), in which a term may reuse earlier terms and leaves any number of times (shared
+linear chain on a second key, one UniformOperator object applied to the keys a and c), in which a term may reuse earlier terms and leaves any number of times (shared
 sub-tree objects, shared leaf objects -- the optimiser keys on object identity), is built as a NIFTy operator and
 handed to `optimise_operator`.  At EVERY point of the grid 3^(#pixels of the domain) the optimised operator must
 have the value and the dense Jacobian of an independent numpy transliteration (forward-mode chain rule), as must
@@ -45,12 +45,17 @@ SPACES = {
         ("EGB+S3:L<=3", ("E", "G", "B"), ("S3",), 3),
         ("XB+S3:L<=3", ("X", "B"), ("S3",), 3),
         ("E+S3:L<=4", ("E",), ("S3",), 4),      # smallest alphabet at length 4: nested shared sub-trees
+        ("UV+S3:L<=3", ("U", "V"), ("S3",), 3),  # one operator object on two different keys
+        ("UVE:L<=2", ("U", "V", "E"), (), 2),
     ],
     "thorough": [
         ("all5+S3+D4:L<=2", pg.LEAVES, ("S3", "D4"), 2),
         ("all5+S3:L<=3", pg.LEAVES, ("S3",), 3),
         ("EG+S3:L<=4", ("E", "G"), ("S3",), 4),
         ("EB+S3:L<=4", ("E", "B"), ("S3",), 4),
+        ("UV+S3:L<=3", ("U", "V"), ("S3",), 3),
+        ("UVXE+S3:L<=2", ("U", "V", "X", "E"), ("S3",), 2),
+        ("UV:L<=4", ("U", "V"), (), 4),
     ],
 }
 
@@ -81,9 +86,10 @@ def build(case):
 
     def diag(v):
         return ift.DiagonalOperator(ift.makeField(T, np.array(v)))
-    fa, fb = ift.FieldAdapter(T, "a"), ift.FieldAdapter(S, "b")
+    fa, fb, fc = ift.FieldAdapter(T, "a"), ift.FieldAdapter(S, "b"), ift.FieldAdapter(T, "c")
     E = fa.exp()
-    leafobj = dict(X=fa, A=diag(num["d1"]) @ fa, E=E, G=diag(num["d2"]) @ E,
+    uni = ift.UniformOperator(T, 0.5, 1.5)     # ONE non-linear operator object applied to two different keys
+    leafobj = dict(X=fa, A=diag(num["d1"]) @ fa, E=E, G=diag(num["d2"]) @ E, U=uni @ fa, V=uni @ fc,
                    B=(diag(num["d3"]) @ ift.ContractionOperator(T, None).adjoint @ fb).sigmoid())
     lin = dict(S3=ift.ScalingOperator(T, num["s3"]), D4=diag(num["d4"]))
     ops = [leafobj[n] for n in case["L"]]
@@ -148,15 +154,10 @@ def structure(op):
 
 def grid_points(keys, num):
     g = num["grid"]
-    npx = (2 if "a" in keys else 0) + (1 if "b" in keys else 0)
-    for pt in itertools.product(g, repeat=npx):
-        x = np.zeros(3)
-        i = 0
-        if "a" in keys:
-            x[:2] = pt[:2]
-            i = 2
-        if "b" in keys:
-            x[2] = pt[i]
+    cols = [c for k in ("a", "b", "c") if k in keys for c in pg.KEY_COLS[k]]
+    for pt in itertools.product(g, repeat=len(cols)):
+        x = np.zeros(pg.NX)
+        x[cols] = pt
         yield x
 
 
@@ -167,6 +168,8 @@ def to_field(op, x):
         d["a"] = ift.makeField(op.domain["a"], np.array(x[:2]))
     if "b" in op.domain.keys():
         d["b"] = ift.makeField(op.domain["b"], np.array(x[2]))
+    if "c" in op.domain.keys():
+        d["c"] = ift.makeField(op.domain["c"], np.array(x[3:5]))
     return ift.MultiField.from_dict(d, op.domain)
 
 
@@ -178,15 +181,15 @@ def eval_op(op, x, with_adjoint=False):
     v = np.asarray(op(f).asnumpy(), dtype=float).reshape(-1)
     lin = op(ift.Linearization.make_var(f))
     v2 = np.asarray(lin.val.asnumpy(), dtype=float).reshape(-1)
-    cols = ([0, 1] if "a" in op.domain.keys() else []) + ([2] if "b" in op.domain.keys() else [])
+    cols = [c for k in op.domain.keys() for c in pg.KEY_COLS[k]]    # MultiDomain keys are sorted: a, b, c
     Jd = dense.rmatrix(lin.jac, ift.LinearOperator.TIMES, complex_in=False)
     m = Jd.shape[0] // 2
-    J = np.zeros((2, 3))
+    J = np.zeros((2, pg.NX))
     J[:, cols] = Jd[:m]
     res = [v, v2, J, float(np.abs(Jd[m:]).max(initial=0.))]
     if with_adjoint:
         Ad = dense.rmatrix(lin.jac, ift.LinearOperator.ADJOINT_TIMES, complex_in=False)
-        A = np.zeros((3, 2))
+        A = np.zeros((pg.NX, 2))
         A[cols] = Ad[:len(cols)]
         res.append(A)
     return res
